@@ -263,6 +263,10 @@ mut2("c19_current_level_global", "C19", [
      "    _current_level = error_correction; rs_blocks = base.rs_blocks(version, _current_level)\n    bit_limit = sum(block.data_count * 8 for block in rs_blocks)\n    if len(buffer) > bit_limit:")],
     "module global scalar set and read within ONE line (window: a few bytecodes)")
 
+mut("c17_output_append", "C17", CLI,
+    '        with open(opts.output, "wb") as out:\n', '        with open(opts.output, "ab") as out:\n',
+    "--output appends to an existing file instead of replacing it")
+
 
 def main():
     os.makedirs(OUT, exist_ok=True)
